@@ -183,9 +183,12 @@ def c17_2(ctx: Ctx) -> RuleResult:
             # (whether the choice is a conditional expression at the draw, an argument of a helper, or separate call sites)
             from ..util import context_cases
 
+            first_of = None  # the size is a name / parameter holding the whole shape: take component 0 of its cases
             if kind == "rvs":
                 sz = next((k.value for k in call.keywords if k.arg == "size"), None)
                 cand_nodes = [sz.elts[0]] if isinstance(sz, (ast.Tuple, ast.List)) and sz.elts else []
+                if not cand_nodes and sz is not None:
+                    first_of = sz
             else:
                 n0 = call.args[0] if call.args else None
                 cand_nodes = [n0.left, n0.right] if isinstance(n0, ast.BinOp) and isinstance(n0.op, ast.Mult) else ([n0] if n0 is not None else [])
@@ -196,8 +199,19 @@ def c17_2(ctx: Ctx) -> RuleResult:
                         return p_
                 return None
 
-            def count_ok(node_):
-                cases = context_cases(ctx, m, node_)
+            def first_component_cases(node_):
+                out_ = []
+                for conds, leaf in context_cases(ctx, m, node_):
+                    if leaf[0] in ("tuple", "list") and leaf[1]:
+                        from ..util import term_cases
+
+                        out_.extend(term_cases(ctx, tuple(conds), leaf[1][0]))
+                    else:
+                        out_.append((conds, ("item", leaf, 0)))
+                return out_
+
+            def count_ok(node_, whole=False):
+                cases = first_component_cases(node_) if whole else context_cases(ctx, m, node_)
                 if not cases:
                     return False
                 for conds, leaf in cases:
@@ -210,7 +224,7 @@ def c17_2(ctx: Ctx) -> RuleResult:
                         return False
                 return True
 
-            ok = any(count_ok(nd) for nd in cand_nodes)
+            ok = any(count_ok(nd) for nd in cand_nodes) or (first_of is not None and count_ok(first_of, whole=True))
             res.add(m, call, "the number of realizations drawn is 1 if shared else the ensemble size", ok,
                     "" if ok else f"the first sample dimension is `{show(first, 80) if first is not None else '?'}`", construct=f"{c.name}: draw count ({kind})")
             # the sample dimension: V without a mask, mask.sum() with one
